@@ -22,7 +22,10 @@ func init() {
 			"G-errval":   "contradiction rule: a pointer/interface result co-returned with an error is dereferenced only where the error is known nil",
 			"G-chan":     "a channel with >=2 sender goroutines is closed only after joining all senders",
 		},
-		Run: runC13,
+		Run:       runC13,
+		DesignRef: "DESIGN.md §4 C13",
+		Technique: "static analysis: CFG path pairing (acquire/release) over go/ssa, typestate and dominance rules, contradiction rule on error-co-returned values",
+		LevelText: "Decides structural necessary conditions only: every gate slot and mutex taken in the storage/KV/schema/index/server packages is released on every CFG path; the diskpacked rollback acts on the file its offset was captured from; temp-file cleanup is registered before later returns; values co-returned with an error are not dereferenced on error paths; multi-sender channels are closed only after the senders joined. Does not decide timing, post-fault agreement with the reference map, or success of recovery.",
 	})
 }
 
@@ -381,7 +384,5 @@ func ruleGRollback(p *Program, r *Reporter) {}
 func ruleGTmp(p *Program, r *Reporter)      {}
 func ruleGErrval(p *Program, r *Reporter)   {}
 func ruleGChan(p *Program, r *Reporter)     {}
-
-func ruleEClose(p *Program, r *Reporter, as string) {}
 
 var _ = fmt.Sprintf
